@@ -140,6 +140,8 @@ def check(an: Analysis) -> None:
             c = n.ast
             if c.func.attr == "set_result":  # type: ignore[union-attr]
                 a = c.args[0] if c.args else None  # type: ignore[union-attr]
+                if isinstance(a, ast.Name) and (sv := Deps(prog, oc).single_value(a.id)) is not None:
+                    a = sv  # `result = task.result()` in the try body, `future.set_result(result)` in its else
                 if not (isinstance(a, ast.Call) and isinstance(a.func, ast.Attribute) and a.func.attr == "result" and "task" in role_of(oc, a.func.value)):
                     ob.fail(oc, c, "the future does not receive task.result()")
             elif c.func.attr == "set_exception":  # type: ignore[union-attr]
